@@ -1,6 +1,6 @@
 (** One entry point for the correspondence: checker id -> case -> verdict. *)
 From Coq Require Import ZArith List Bool.
-From Comet Require Import Base.Parse Check.C19.
+From Comet Require Import Base.Parse Check.C19 Check.C18.
 Import ListNotations.
 Open Scope Z_scope.
 
@@ -12,6 +12,12 @@ Definition dispatch (id : Z) (s : list Z) : list Z :=
   else if id =? 1905 then run_P (chk_agg false) s
   else if id =? 1906 then run_P chk_fusion s
   else if id =? 1907 then run_P chk_merge s
+  else if id =? 1801 then run_P chk_dist s
+  else if id =? 1802 then run_P chk_batch s
+  else if id =? 1803 then run_P chk_preprocess s
+  else if id =? 1804 then run_P chk_helpers s
+  else if id =? 1805 then run_P chk_cmp32 s
+  else if id =? 1806 then run_P chk_triangle s
   else [8].
 
 (** used by cases.v: the list of case numbers whose verdict is not OK *)
